@@ -116,6 +116,9 @@ class C02(Check):
         cfgs.append(many)
         # a SUPI ending in 0000: the session identity derived from it is 0 (part of the recorded finding "outside 1..15"); it
         # must be the same 0 in every message of every procedure
+        sixteen = proc.default_cfg(counts=[1, 1, 1, 1, 1])
+        sixteen["imsi"] = "208930000000016"          # identity 16 (recorded finding: above 15), the same 16 in every procedure
+        cfgs.append(sixteen)
         zero = proc.default_cfg(counts=[2, 2, 2, 2, 2])
         zero["imsi"] = "208930000010000"
         cfgs.append(zero)
